@@ -41,13 +41,21 @@ def main():
                 viol = [l for l in r.stdout.splitlines() if l.startswith("VIOLATION")]
                 sigs = [l.strip() for l in r.stdout.splitlines() if l.strip().startswith("signature:")]
                 verdict = {0: "MISSED", 1: "DETECTED", 2: "ERROR"}.get(r.returncode, "rc=%d" % r.returncode)
-                results[name + ":" + p] = verdict
+                results[name + ":" + p] = (verdict, [x.replace("signature: ", "") for x in sigs[:4]])
                 print("%-28s %-4s %-9s %s" % (name, p, verdict, "; ".join(sigs[:3])[:200]), flush=True)
                 if r.returncode == 2:
                     print(r.stdout[-1500:])
         finally:
             shutil.rmtree(tmp, ignore_errors=True)
     subprocess.run(["git", "checkout", "--", "evidence"], cwd=HERE)
+    # keep the latest verdict per (seed, property) - the table of DESIGN.md section 12 is generated from it
+    rp = os.path.join(SEEDED, "RESULTS.json")
+    allres = json.load(open(rp)) if os.path.exists(rp) else {}
+    for k, v in results.items():
+        allres[k] = {"verdict": v if isinstance(v, str) else v[0], "signatures": [] if isinstance(v, str) else v[1], "tier": tier}
+    with open(rp, "w") as f:
+        json.dump(allres, f, indent=1, sort_keys=True)
+        f.write("\n")
     return 0
 
 if __name__ == "__main__":
